@@ -46,11 +46,14 @@ From XmlRs Require Import Base.CPred Spec.XPathSyntax Model.Peg Model.XPathAst
   Model.ParseActionsXPath Model.XPathAstAbs Proofs.XPathParseExpr Proofs.XPathParseMain Proofs.XPathSyntaxLemmas Proofs.XPathParsePrecedence Proofs.XPathParseTotal.
 Import ListNotations.
 
+(** [Theorem]s have their assumptions re-checked on every run of checks/C08.py; [Corollary]s are
+    consequences of them (their [Print Assumptions] is at the end of this file). *)
+
 (** the parser of XPath expressions terminates on every input (parser half of C06) *)
 Theorem xpath_parse_terminates : forall s : str, run_expr s <> Oof.
 Proof. exact xpath_parse_terminates_proof. Qed.
 
-Theorem xpath_parse_never_oof : forall s : str, parse_expr s <> POof.
+Corollary xpath_parse_never_oof : forall s : str, parse_expr s <> POof.
 Proof. exact xpath_parse_never_oof_proof. Qed.
 
 (** ... and never panics: on EVERY string the parser answers a tree or a syntax error; none of the
@@ -59,7 +62,7 @@ Proof. exact xpath_parse_never_oof_proof. Qed.
 Theorem parse_expr_total : forall s : str, (exists e r, parse_expr s = POk e r) \/ parse_expr s = PErr.
 Proof. exact XPathParseTotal.parse_expr_total. Qed.
 
-Theorem parse_expr_never_panics : forall s : str,
+Corollary parse_expr_never_panics : forall s : str,
   parse_expr s <> PPanic /\ parse_expr s <> PBad /\ parse_expr s <> POof.
 Proof. exact XPathParseTotal.parse_expr_never_panics. Qed.
 
@@ -77,7 +80,7 @@ Theorem parse_spell : forall (a : xexpr) (sp : spelling),
 Proof. exact parse_spell_proof. Qed.
 
 (** the hypothesis [ok_spelling] is satisfiable for every tree with lexically valid leaves *)
-Theorem every_tree_has_a_spelling : forall (a : xexpr) (w : wtree),
+Corollary every_tree_has_a_spelling : forall (a : xexpr) (w : wtree),
   leaves_ok a = true -> ws_ok w = true -> ok_spelling a {| surface := paren a; white := w |}.
 Proof. exact every_tree_has_a_spelling_proof. Qed.
 
@@ -103,18 +106,18 @@ Theorem spellings_agree : forall a sp1 sp2,
 Proof. exact spellings_agree_proof. Qed.
 
 (** rung 1 of the ladder *)
-Theorem parse_spell_surface_operators : forall (a : xexpr) (w : wtree),
+Corollary parse_spell_surface_operators : forall (a : xexpr) (w : wtree),
   wfb a = true -> rung1 a = true -> ws_ok w = true ->
   exists e, parse_expr (spell_surface a w) = POk e [] /\ abs_or e = a.
 Proof. exact parse_spell_surface_operators_proof. Qed.
 
-Theorem parse_spell_partial_operators : forall (a : xexpr) (sp : spelling),
+Corollary parse_spell_partial_operators : forall (a : xexpr) (sp : spelling),
   ok_spelling a sp -> rung1 (surface sp) = true ->
   exists e, parse_expr (spell a sp) = POk e [] /\ abs_or e ≈ a.
 Proof. exact parse_spell_partial_operators_proof. Qed.
 
 (** [a o1 b o2 c] with [o2] binding tighter groups to the right *)
-Theorem precedence_right : forall o1 o2 a b c w,
+Corollary precedence_right : forall o1 o2 a b c w,
   (lvl o1 < lvl o2)%nat -> operand a -> operand b -> operand c -> ws_ok w = true ->
   exists e, parse_expr (spell_surface (XBin o1 a (XBin o2 b c)) w) = POk e [] /\
             abs_or e = XBin o1 a (XBin o2 b c).
@@ -122,13 +125,13 @@ Proof. exact precedence_right_proof. Qed.
 
 (** [a o1 b o2 c] with [o1] binding at least as tight groups to the left: higher precedence on
     the left, and LEFT ASSOCIATIVITY when the levels are equal *)
-Theorem precedence_left : forall o1 o2 a b c w,
+Corollary precedence_left : forall o1 o2 a b c w,
   (lvl o2 <= lvl o1)%nat -> operand a -> operand b -> operand c -> ws_ok w = true ->
   exists e, parse_expr (spell_surface (XBin o2 (XBin o1 a b) c) w) = POk e [] /\
             abs_or e = XBin o2 (XBin o1 a b) c.
 Proof. exact precedence_left_proof. Qed.
 
-Theorem left_assoc : forall o a b c w,
+Corollary left_assoc : forall o a b c w,
   operand a -> operand b -> operand c -> ws_ok w = true ->
   exists e, parse_expr (spell_surface (XBin o (XBin o a b) c) w) = POk e [] /\
             abs_or e = XBin o (XBin o a b) c.
@@ -136,20 +139,20 @@ Proof. exact left_assoc_proof. Qed.
 
 (** the other grouping is not what the unparenthesised string means: it is not derivable
     without parentheses *)
-Theorem other_grouping_needs_parentheses : forall o1 o2 a b c,
+Corollary other_grouping_needs_parentheses : forall o1 o2 a b c,
   ((lvl o1 < lvl o2)%nat -> wfb (XBin o2 (XBin o1 a b) c) = false) /\
   ((lvl o2 <= lvl o1)%nat -> wfb (XBin o1 a (XBin o2 b c)) = false).
 Proof. exact other_grouping_needs_parentheses_proof. Qed.
 
 (** unary minus binds tighter than every binary operator except union ... *)
-Theorem unary_binds_tighter : forall o a b w,
+Corollary unary_binds_tighter : forall o a b w,
   (lvl o < 6)%nat -> operand a -> operand b -> ws_ok w = true ->
   exists e, parse_expr (spell_surface (XBin o (XNeg a) b) w) = POk e [] /\
             abs_or e = XBin o (XNeg a) b.
 Proof. exact unary_binds_tighter_proof. Qed.
 
 (** ... and looser than union: the spelling of -(a|b) needs no parentheses *)
-Theorem union_binds_tightest : forall a b w,
+Corollary union_binds_tightest : forall a b w,
   operand a -> operand b -> ws_ok w = true ->
   exists e, parse_expr (spell_surface (XNeg (XBin BUnion a b)) w) = POk e [] /\
             abs_or e = XNeg (XBin BUnion a b).
